@@ -77,9 +77,10 @@ def gen_cases(ctx):
     return cases
 
 
-def value_of(shape):
+def value_of(shape, name=None):
     if shape == "scalar":
-        return 7
+        # a string longer than NumPy's inline small-string size for two of the names
+        return "long string scalar 0123456789" if name in ("w", "y") else 7
     if shape == "nd":
         return np.zeros((2, 3))
     return list(range(shape))
@@ -177,7 +178,7 @@ def impl(case):
     import dataiter as di
     res = {"steps": []}
     try:
-        df = di.DataFrame([(k, value_of(v)) for k, v in case["init"]])
+        df = di.DataFrame([(k, value_of(v, k)) for k, v in case["init"]])
         res["init"] = observe(df)
     except Exception as e:
         res["init_err"] = f"{type(e).__name__}: {e}"
@@ -187,9 +188,9 @@ def impl(case):
         try:
             k = st["k"]
             if k == "setitem":
-                df[st["name"]] = value_of(st["v"])
+                df[st["name"]] = value_of(st["v"], st["name"])
             elif k == "setattr":
-                setattr(df, st["name"], value_of(st["v"]))
+                setattr(df, st["name"], value_of(st["v"], st["name"]))
             elif k == "delitem":
                 del df[st["name"]]
             elif k == "delattr":
